@@ -5,9 +5,7 @@ from math import gcd
 import z3
 
 from symx.proxies import SBool, SReal, all_of
-
-GRID = 1024
-GRID_MAX = 1 << 20
+from symx.space import GRID, GRID_MAX
 
 
 def NOT(c):
